@@ -50,6 +50,27 @@ Theorem C10_expanded_eq_filter : forall idx ms,
 Proof. exact select_eq_filter. Qed.
 Print Assumptions C10_expanded_eq_filter.
 
+(* Lazy expanded postings: whatever subset of label names is marked lazy (their postings are
+   not fetched; their matchers are re-checked on every candidate series), the condition a
+   series must satisfy is the same as with every group fetched eagerly. *)
+Theorem C10_lazy_equiv : forall idx ms gs (lazy : str -> bool),
+  (forall g, In g gs -> good_group idx ms g) ->
+  (forall m, In m ms -> exists g, In g gs /\ g_name g = m_name m) ->
+  forall s, In s idx ->
+  forallb (fun g => in_group g (gval s g)) (filter (fun g => negb (lazy (g_name g))) gs)
+  && forallb (fun m => m_fun m (label_get (fst s) (m_name m))) (filter (fun m => lazy (m_name m)) ms)
+  = forallb (fun g => in_group g (gval s g)) gs.
+Proof. exact lazy_split_sem. Qed.
+Print Assumptions C10_lazy_equiv.
+
+(* ... and the groups built by matchersToPostingGroups meet those hypotheses. *)
+Theorem C10_groups_good : forall idx ms, Forall coherent ms ->
+  forall gs, matchers_to_groups idx ms = Some gs ->
+  (forall g, In g gs -> good_group idx (dedup_matchers ms) g)
+  /\ (forall m, In m (dedup_matchers ms) -> exists g, In g gs /\ g_name g = m_name m).
+Proof. exact groups_good. Qed.
+Print Assumptions C10_groups_good.
+
 (* The whole answer: selected series, each with exactly its chunks overlapping the range,
    series without such chunks dropped, external labels attached. *)
 Theorem C10_answer_eq_spec : forall idx ext ms mint maxt,
